@@ -3,9 +3,9 @@ package main
 import (
 	"fmt"
 	"go/constant"
-	"math/big"
 	"go/token"
 	"go/types"
+	"math/big"
 	"sort"
 	"strings"
 
@@ -66,24 +66,24 @@ type Obligation struct {
 }
 
 type Exec struct {
-	topRets  []retState // return states of the function under verification (before merging)
-	P        *Prog
-	fn       *ssa.Function
-	contract *Contract
-	cfgVar   string
-	cfgVal   int
-	hasCfg   bool
-	obls     []*Obligation
-	hyps     []*Term
-	depth    int
-	oldHeap  *Heap
-	alloc0   *Term
-	params   map[string]Val
-	checks   map[string]bool
-	trusted  map[string]bool // names of trusted models / assumptions used
-	safetyN  map[string]int
-	logArity int
-	curFn    []*ssa.Function
+	topRets      []retState // return states of the function under verification (before merging)
+	P            *Prog
+	fn           *ssa.Function
+	contract     *Contract
+	cfgVar       string
+	cfgVal       int
+	hasCfg       bool
+	obls         []*Obligation
+	hyps         []*Term
+	depth        int
+	oldHeap      *Heap
+	alloc0       *Term
+	params       map[string]Val
+	checks       map[string]bool
+	trusted      map[string]bool // names of trusted models / assumptions used
+	safetyN      map[string]int
+	logArity     int
+	curFn        []*ssa.Function
 	denseIntMaps map[string][2]int
 	callN        map[string]int
 	muted        bool
